@@ -43,6 +43,12 @@ impl ValueWriterBlob {
 	pub fn write_u32(&mut self, v: u32) -> (r: Result<(), VErr>) ensures r is Ok, final(self).sink.buf@ == old(self).sink.buf@ + be32(v) { unimplemented!() }
 }
 
+// the brotli wrappers: assumed here with the clauses unit codec_wrappers proves for the real bodies
+pub uninterp spec fn dec_brotli(d: Seq<u8>) -> Option<Seq<u8>>;    // trusted: brotli
+#[verifier::external_body]
+pub fn compress_brotli_fast(b: &Blob) -> (r: Result<Blob, VErr>) ensures r is Ok ==> dec_brotli(r.unwrap()@) == Some(b@) { unimplemented!() }
+#[verifier::external_body]
+pub fn decompress_brotli(b: &Blob) -> (r: Result<Blob, VErr>) ensures r is Ok ==> dec_brotli(b@) == Some(r.unwrap()@) { unimplemented!() }
 #[derive(Clone, Copy, PartialEq, Eq, Debug, Structural)]
 //@extract struct file="versatiles_core/src/types/byte_range.rs" name="ByteRange"
 //@end
@@ -103,6 +109,19 @@ impl TileIndex {
 					&& self.index@[i].offset == (if old(self).index@[i].offset + offset > u64::MAX { u64::MAX as int } else { old(self).index@[i].offset + offset }),
 				forall|i: int| it.index@ <= i < self.index@.len() ==> #[trigger] self.index@[i] == old(self).index@[i],
 //@end
+//@extract fn file="versatiles_container/src/container/versatiles/types/tile_index.rs" scope="impl TileIndex" name="from_brotli_blob"
+//@ret r
+//@spec
+		// the stored form of a block's tile index (versatiles v02): brotli over the 12-byte records
+		ensures r is Ok ==> dec_brotli(buf@) is Some && dec_brotli(buf@).unwrap().len() % 12 == 0
+			&& r.unwrap().index@.len() * 12 == dec_brotli(buf@).unwrap().len()
+			&& forall|i: int| 0 <= i < r.unwrap().index@.len() ==> #[trigger] r.unwrap().index@[i] == decode_record(dec_brotli(buf@).unwrap(), i),
+//@end
+//@extract fn file="versatiles_container/src/container/versatiles/types/tile_index.rs" scope="impl TileIndex" name="as_brotli_blob"
+//@ret r
+//@spec
+		ensures r is Ok ==> dec_brotli(r.unwrap()@) == Some(records(self.index@, self.index@.len() as int))
+//@end
 //@extract fn file="versatiles_container/src/container/versatiles/types/tile_index.rs" scope="impl TileIndex" name="new_empty"
 //@ret r
 //@spec
@@ -148,6 +167,28 @@ pub proof fn lemma_records_prefix(s: Seq<ByteRange>, k: int, n: int)
 		assert(records(s, n) == records(s, n - 1) + record(s[n - 1]));
 		assert(records(s, n).subrange(0, 12 * k) =~= records(s, n - 1).subrange(0, 12 * k)); }
 	else { assert(records(s, n).subrange(0, 12 * n) =~= records(s, n)); }
+}
+
+// C01 (tile index, stored form): what from_brotli_blob accepts of as_brotli_blob's output is the index that was written, entry for
+// entry, for every index whose lengths fit the 32-bit length field (the two real functions, seen through their contracts only)
+pub fn thm_tile_index_brotli_roundtrip(idx: &TileIndex) -> (r: Option<TileIndex>)
+	requires forall|i: int| 0 <= i < idx.index@.len() ==> (#[trigger] idx.index@[i]).length <= u32::MAX
+	ensures r is Some ==> r.unwrap().index@ == idx.index@
+{
+	match idx.as_brotli_blob() {
+		Ok(blob) => match TileIndex::from_brotli_blob(blob) {
+			Ok(back) => {
+				proof {
+					lemma_records_len(idx.index@, idx.index@.len() as int);
+					assert forall|i: int| 0 <= i < idx.index@.len() implies back.index@[i] == idx.index@[i] by { lemma_tile_index_roundtrip(idx.index@, i); }
+					assert(back.index@ =~= idx.index@);
+				}
+				Some(back)
+			}
+			Err(_) => None,
+		},
+		Err(_) => None,
+	}
 }
 } // verus!
 fn main() {}
